@@ -182,7 +182,38 @@ def run(rep, tier, seed, replay=None):
                 cases += [pline, dline]
                 retry_pairs.append((fam, pline, dline))
                 rep.count("retry-through-dispatch:" + fam)
+    # ---- the caller's REQUEST settings (Minecraft: host name and protocol version of the handshake) must reach the protocol
+    # on the generic path exactly as given to the protocol's own entry: host names of every shape (fully qualified with a
+    # trailing dot, only dots, empty, upper case, with spaces, non-ASCII, long), versions at the VarInt boundaries
+    settings_pairs = []
+    HOSTS = ["mc.example.com.", "mc.example.com..", ".", "...", "", "MC.Example.COM", " mc.example.com ", "mc.example.com:25565", "münchen.example",
+             "a" * 255, "a" * 256 + ".", "gamedig", "GameDig", "localhost.", "-", "[::1]", "日本.example."]
+    for fam in ("mcjava", "mcauto"):
+        if fam not in netprops.FAMILIES:
+            continue
+        vs = [v for v in netprops.valid_cases(fam, seed + 14, 80 if tier == "quick" else 600) if not v.notwf and v.want.startswith("OK")]
+        for bi, v in enumerate(vs[: (len(HOSTS) if tier == "quick" else 8 * len(HOSTS))]):
+            host = HOSTS[bi % len(HOSTS)]
+            c = v.case()
+            c.args[2] = host.encode().hex() or "-"      # family line: `-` = the empty host name
+            pid_ = f"{v.id}hs{bi}"
+            pline = c.line(pid_ + "p")
+            game, default, _ = dispatch_cases.ARMS[fam](c.args)
+            pv = c.args[1]
+            dline = " ".join([pid_ + "d", "dispatch", game, c.args[0], c.args[3], f"E{host.encode().hex()}:{pv}:-:-:-", c.fmt_script()] + c.opts)
+            cases += [pline, dline]
+            settings_pairs.append((fam, host, pline, dline))
+            rep.count("settings-through-dispatch:" + fam)
     model, impl, panics = vlib.correspond(rep, netprops.corpus("C14") + cases, oracle=netprops.crash_oracle, trivial=netprops.trivial, tag="c14")
+    for fam, host, pline, dline in settings_pairs:
+        po, do = impl.get(pline.split(" ", 1)[0], ""), impl.get(dline.split(" ", 1)[0], "")
+        ps, dsn = [(p, d) for (_, p, d, _) in vlib.sends_of(po)], [(p, d) for (_, p, d, _) in vlib.sends_of(do)]
+        # (the first request of the protocol entry is the handshake carrying the host name; later traffic depends on replies
+        # that were generated for the original name, so only what both paths send FIRST and whether they agree is compared)
+        if ps[:1] != dsn[:1] or (vlib.result_of(po).split(" ")[0] != vlib.result_of(do).split(" ")[0]):
+            rep.oracle_failures.append((f"paths-differ:generic-vs-protocol:{dline.split(' ')[2]}:request-settings",
+                                        f"host name {host!r}: protocol entry sends {ps[:1]} ({vlib.result_of(po)[:60]}), generic path {dsn[:1]} ({vlib.result_of(do)[:60]})",
+                                        dline, do[:300]))
     for fam, pline, dline in retry_pairs:
         po, do = impl.get(pline.split(" ", 1)[0], ""), impl.get(dline.split(" ", 1)[0], "")
         pr, dr = vlib.result_of(po), vlib.result_of(do)
